@@ -70,7 +70,7 @@ def sites_case(layout, has_old, sched, xs, olds, approved):
     return True
 
 
-def reeval_case(form, a1, a2, x):
+def reeval_case(form, a1, a2, x, fix=False, update=False):
     """the hand-written argument evaluates to a1 on the first and a2 on the second evaluation"""
     world.reset({"a_vals": [a1, a2], "x": x, "out": [], "Is": Is})
     arg = {"plain": "a", "list": "[a, 1]", "dict": "{1: a}", "is": "Is(a)", "is_list": "[Is(a), 1]", "is_dict_item": "{1: Is(a)}"}[form]
@@ -82,12 +82,17 @@ def reeval_case(form, a1, a2, x):
         body = f"    for a in a_vals:\n        out.append([a, 1] == snapshot({arg}))\n"
     else:
         body = f"    for a in a_vals:\n        out.append({{1: a}} == snapshot({arg}))\n"
-    r = world.core_session(HEAD + "def test_a():\n" + body, set(), collect=False)
+    approved = set()
+    if fix:
+        approved.add("fix")
+    if update:
+        approved.add("update")
+    r = world.core_session(HEAD + "def test_a():\n" + body, approved, collect=False)
     out = r.outcomes.get("test_a")
-    PathLog.record(f"reeval{form}{type(out).__name__}", nontrivial=True, sample={"argument": arg, "outcome": "passed" if out == "passed" else type(out).__name__})
+    PathLog.record(f"reeval{form}{sorted(approved)}{type(out).__name__}", nontrivial=True, sample={"argument": arg, "outcome": "passed" if out == "passed" else type(out).__name__})
     if form.startswith("is"):
         # user-controlled dynamic part: never an error, and the comparison uses the current value
-        return out == "passed" and r.ns["out"] == [True, True]
+        return out == "passed" and [bool(b) for b in r.ns["out"]] == [True, True]
     if a1 == a2:
         return out == "passed"
     return isinstance(out, UsageError)
@@ -145,8 +150,8 @@ def conditions(tier):
                                           bounds=f"layout `{layout}`: 3 call sites (<=, >=, in), {m} evaluations in every interleaving (symbolic schedule{', first site %d' % first if first is not None else ''}) split over two tests, values symbolic, {'previous values c0, c1, [c2, c3]' if has_old else 'empty snapshots'}, approved {sorted(approved)}"))
     for form in ("plain", "list", "dict", "is", "is_list", "is_dict_item"):
         name = f"reeval_{form}"
-        conds.append(Cond(name, mkfn(name, [("a1", "int"), ("a2", "int"), ("x", "int")], f"return reeval_case({form!r}, a1, a2, x)", GLB), timeout=600, group="reeval",
-                          bounds=f"snapshot argument form `{form}` re-evaluated with a possibly different value (symbolic)"))
+        conds.append(Cond(name, mkfn(name, [("a1", "int"), ("a2", "int"), ("x", "int"), ("fix", "bool"), ("update", "bool")], f"return reeval_case({form!r}, a1, a2, x, fix, update)", GLB), timeout=600, group="reeval",
+                          bounds=f"snapshot argument form `{form}` re-evaluated with a possibly different value (symbolic), fix / update approved or not"))
     for has_old in (False, True):
         name = f"two_identical_files_{'old' if has_old else 'new'}"
         params = [(n, "int") for n in ["a0", "a1", "a2", "b0", "b1", "b2", "c0"]]
